@@ -89,7 +89,7 @@ def static_globals_check():
 
 
 def run(ctx):
-    n = 500 if ctx.tier == "quick" else 8000
+    n = ctx.n(500, 8000)
     gor = 8 if ctx.tier == "quick" else 32
     rng = core.Rng(ctx.seed)
     corpus = histprop.load_corpus("C09")
@@ -173,7 +173,7 @@ def run(ctx):
     # bkl binary on files, repeated
     cli_runs = 0
     bkl = os.path.join(ctx.bindir, "bkl")
-    for j in range(30 if ctx.tier == "quick" else 300):
+    for j in range(ctx.n(30, 300)):
         r2 = rng.fork("cli%d" % j)
         c = c01.gen_case(r2)
         docs = hist.docs_of_history(c)
